@@ -72,12 +72,19 @@ def cases(tier, seed):
                             for cr in (True, False):
                                 out.append({"key": f"damped/{base}/g={g}/res={int(cr)}", "solver": "damped", "m": m, "n": n, "comp": list(comp), "how": how, "kind": kind, "gamma": g, "cr": cr, "sparse": False, "mode": "traj"})
                         out.append({"key": f"damped/{base}/g=0.5/sparse", "solver": "damped", "m": m, "n": n, "comp": list(comp), "how": how, "kind": kind, "gamma": 0.5, "cr": True, "sparse": True, "mode": "traj"})
+                        if how == "head" and kind == "hh" and r >= 1:
+                            out.append({"key": f"damped/{base}/g=0.5/sparse-noncanonical", "solver": "damped", "m": m, "n": n, "comp": list(comp), "how": how, "kind": kind, "gamma": 0.5, "cr": True, "sparse": "noncanonical", "mode": "traj"})
                         out.append({"key": f"third/{base}", "solver": "third", "m": m, "n": n, "comp": list(comp), "how": how, "kind": kind, "gamma": None, "cr": True, "sparse": False, "mode": "traj"})
                         if how == "head" and kind == "hh" and r >= 1:
                             for e in (-27, 27):
                                 out.append({"key": f"damped/{base}/g=1.0/scale=2^{e}", "solver": "damped", "m": m, "n": n, "comp": list(comp), "how": how, "kind": kind, "gamma": 1.0, "cr": True, "sparse": False, "mode": "traj", "scale": e})
                                 out.append({"key": f"damped/{base}/g=0.5/nores/scale=2^{e}", "solver": "damped", "m": m, "n": n, "comp": list(comp), "how": how, "kind": kind, "gamma": 0.5, "cr": False, "sparse": False, "mode": "traj", "scale": e})
                                 out.append({"key": f"third/{base}/scale=2^{e}", "solver": "third", "m": m, "n": n, "comp": list(comp), "how": how, "kind": kind, "gamma": None, "cr": True, "sparse": False, "mode": "traj", "scale": e})
+                        if how == "head" and 1 <= r < p and kind == "hh":
+                            # small damping, tight tolerance, long budget on rank-deficient inputs: the run may only stop
+                            # when ALL Penrose residuals are below tol
+                            for g_, tol in ((0.1, 1e-10), (0.25, 1e-9), (0.25, 1e-10)):
+                                out.append({"key": f"stop/damped/{base}/g={g_}/tol={tol}", "solver": "damped", "m": m, "n": n, "comp": list(comp), "how": how, "kind": kind, "gamma": g_, "cr": True, "sparse": False, "mode": "stop", "tol": tol, "budget": 400})
                         if how == "head" and r >= 1:
                             for tol in (1e-3, 1e-6, 1e-9):
                                 out.append({"key": f"stop/damped/{base}/tol={tol}", "solver": "damped", "m": m, "n": n, "comp": list(comp), "how": how, "kind": kind, "gamma": 1.0, "cr": True, "sparse": False, "mode": "stop", "tol": tol})
@@ -120,7 +127,22 @@ def run_case(case, seed):
     nA = O.fro(A)
     tags = {"solver": case["solver"], "rank": r, "m": m, "n": n, "mode": case["mode"], "zero_matrix": r == 0}
     fails = []
-    Ain = to_sparse(lib, A) if case["sparse"] else G.to_quat(A)
+    if case["sparse"] == "noncanonical":
+        from scipy import sparse as _sp
+
+        def _nc(P):  # every entry stored as two summands at the same position (legal CSR, not canonical)
+            rr, cc = np.nonzero(np.ones_like(P))
+            d1 = P[rr, cc] * 0.25
+            d2 = P[rr, cc] - d1
+            rows = np.concatenate([rr, rr])
+            cols = np.concatenate([cc, cc])
+            order = np.lexsort((cols, rows))
+            indptr = np.concatenate([[0], np.cumsum(np.bincount(rows, minlength=P.shape[0]))])
+            return _sp.csr_matrix((np.concatenate([d1, d2])[order], cols[order], indptr), shape=P.shape)
+
+        Ain = lib.utils.SparseQuaternionMatrix(*[_nc(np.ascontiguousarray(A[..., t])) for t in range(4)], (m, n))
+    else:
+        Ain = to_sparse(lib, A) if case["sparse"] else G.to_quat(A)
     before = None if case["sparse"] else Ain.tobytes()
     sv = lib.solver
 
@@ -141,14 +163,15 @@ def run_case(case, seed):
 
     if case["mode"] == "stop":
         tol = case["tol"]
-        ok, res = call(make(300, tol).compute, Ain)
+        BUD = case.get("budget", 300)
+        ok, res = call(make(BUD, tol).compute, Ain)
         if not ok:
             fails.append(fail("raised", f"{res}", **tags))
             return {"key": case["key"], "fails": fails, "nontrivial": True, "digest": digest(A, case["key"])}
         X = G.from_quat(res[0])
         hist = res[1]["AXA-A"] if (case["cr"] or case["solver"] == "third") else res[2]
         its = len(hist)
-        stopped = its < 300
+        stopped = its < BUD
         if stopped:
             Aplus = model_X(np.ones(r))
             err = O.fro(X - Aplus)
